@@ -121,24 +121,30 @@ class StubFamily(SubCheck):
                 info["dL_rel"] = max(info.get("dL_rel", 0.0), dL)
                 if dL > 1e-9 and not rc:
                     return Outcome.fail("angular_momentum_not_conserved", f"molecule {b}: total angular momentum changes by {dL:.3e} (relative)", labels, True)
-                # bookkeeping on every stored row of the coarsest run
-                ek = 0.5 * (m[None, :, None] * V ** 2).sum(axis=(1, 2)) * C.KINETIC_ENERGY_SCALE
-                d = float(np.abs(ek - r0["data/thermo/Ek"]).max() / max(1e-300, np.abs(ek).max()))
-                if d > 1e-12:
-                    return Outcome.fail("stored_kinetic_energy_not_of_stored_velocities", f"molecule {b}: stored Ek differs from sum 1/2 m v^2 of the stored velocities of the same row by {d:.3e} (relative)", labels, True)
+                # bookkeeping on every stored row of ALL three runs: the finer runs write every 2nd / 4th step with no other reporter
+                # active, the configuration in which a seeded change wrote the thermo values one step late (first version: coarsest
+                # run only, output stride 1)
                 ndof = 3.0 * nat - (0.0 if not rc else (6.0 if rc[0] == "angular" else 3.0))
-                tt = ek * C.TEMPERATURE_SCALE / (0.5 * ndof)
-                d = float(np.abs(tt - r0["data/thermo/T"]).max() / max(1e-300, np.abs(tt).max()))
-                if d > 1e-12:
-                    return Outcome.fail("stored_temperature_inconsistent", f"molecule {b}: stored T differs from 2 Ek/(n_dof k_B) by {d:.3e} (relative)", labels, True)
                 Sfull = S0[b:b + 1]
-                for j in (0, len(Xc) // 2, len(Xc) - 1):
-                    xx = X0[b:b + 1].copy()
-                    xx[0, :nat] = Xc[j]
-                    sp1 = {"k": spec["k"], "r0": [spec["r0"][b]], "species": [spec["species"][b]]}
-                    ep = float(stubforce.energy_of(sp1, Sfull, xx)[0])
-                    if abs(ep - r0["data/thermo/Ep"][j]) > 1e-10 * max(1.0, abs(ep)):
-                        return Outcome.fail("stored_potential_energy_not_of_stored_coordinates", f"molecule {b} row {j}: stored Ep {r0['data/thermo/Ep'][j]!r} vs potential at the stored coordinates {ep!r}", labels, True)
+                for lvl in (0, 1, 2):
+                    rr = runs[lvl][b]
+                    Vl, Xl = rr["velocities/values"], rr["coordinates/values"]
+                    stride = 2 ** lvl
+                    ek = 0.5 * (m[None, :, None] * Vl ** 2).sum(axis=(1, 2)) * C.KINETIC_ENERGY_SCALE
+                    d = float(np.abs(ek - rr["data/thermo/Ek"]).max() / max(1e-300, np.abs(ek).max()))
+                    if d > 1e-12:
+                        return Outcome.fail("stored_kinetic_energy_not_of_stored_velocities", f"molecule {b}, output stride {stride}: stored Ek differs from sum 1/2 m v^2 of the stored velocities of the same row by {d:.3e} (relative)", labels, True)
+                    tt = ek * C.TEMPERATURE_SCALE / (0.5 * ndof)
+                    d = float(np.abs(tt - rr["data/thermo/T"]).max() / max(1e-300, np.abs(tt).max()))
+                    if d > 1e-12:
+                        return Outcome.fail("stored_temperature_inconsistent", f"molecule {b}, output stride {stride}: stored T differs from 2 Ek/(n_dof k_B) by {d:.3e} (relative)", labels, True)
+                    for j in (0, 1, len(Xl) // 2, len(Xl) - 1):
+                        xx = X0[b:b + 1].copy()
+                        xx[0, :nat] = Xl[j]
+                        sp1 = {"k": spec["k"], "r0": [spec["r0"][b]], "species": [spec["species"][b]]}
+                        ep = float(stubforce.energy_of(sp1, Sfull, xx)[0])
+                        if abs(ep - rr["data/thermo/Ep"][j]) > 1e-10 * max(1.0, abs(ep)):
+                            return Outcome.fail("stored_potential_energy_not_of_stored_coordinates", f"molecule {b}, output stride {stride}, row {j}: stored Ep {rr['data/thermo/Ep'][j]!r} vs potential at the stored coordinates {ep!r}", labels, True)
                 # acceleration unit: v(1) - v(0) = dt/2 (a0 + a1), a = F/m * ACC
                 F = r0["forces/values"]
                 a_code = (V[1] - V[0]) / (0.5 * case["dt"])
@@ -165,6 +171,24 @@ class StubFamily(SubCheck):
                     info["efluct_ratio_min"] = min(info.get("efluct_ratio_min", 99.0), r1, r2)
                     if not (3.0 <= r2 <= 5.2):
                         return Outcome.fail("energy_fluctuation_not_second_order", f"molecule {b}: energy fluctuation ratios per halving {r1:.2f}, {r2:.2f} (second order gives 4)", labels, True, ratio=r2)
+            # centre-of-mass removal on a system whose total (angular) momentum is already zero is the identity: the run with
+            # removal must retrace the run without it, started from the same velocities (so order, reversibility and energy
+            # conservation carry over to every removal mode and stride). A seeded change that "restored" the kinetic energy of the
+            # TARGET temperature at every stride conserved momentum and passed every check that was switched off under removal.
+            if rc:
+                n0 = int(round(case["time"] / case["dt"]))
+                v0 = np.zeros_like(X0)
+                for b in (0, 1):
+                    nat = int((S0[b] > 0).sum())
+                    v0[b, :nat] = runs[0][b]["velocities/values"][0]
+                _, rn, _ = _md(S0, X0, case["dt"], case["T"], case["k"], wd, "nocom", n0, case["seed"], None, vel=v0)
+                for b in (0, 1):
+                    xa, xb = runs[0][b]["coordinates/values"], rn[b]["coordinates/values"]
+                    c0 = xa[0].mean(axis=0) - xb[0].mean(axis=0)          # the fresh start is translated to the origin, the supplied one is not
+                    d = float(np.abs((xa - xa[0][None]) - (xb - xb[0][None])).max())
+                    info["com_noop"] = max(info.get("com_noop", 0.0), d)
+                    if d > 1e-8:
+                        return Outcome.fail("com_removal_changes_momentum_free_trajectory", f"molecule {b}: with remove_com={rc} the displacements differ from the run without removal (same start velocities, zero total momentum) by {d:.3e} A over {n0} steps", labels, True, d=d)
             # no secular drift: one long run covering >= 15 periods of the SLOWEST vibration (heavy-heavy pair springs:
             # omega_slow^2 ~ 2 k ACC / 16), window means over >= 3 slow periods each. (A first version timed the run by the
             # fastest mode: 100 fs covered less than one slow period and the window means differed by the oscillation itself.)
